@@ -464,9 +464,51 @@ class Inliner:
         return prelude + body, ast.Name(id=ret, ctx=ast.Load())
 
     # -- rewriting one function --------------------------------------------------
+    @staticmethod
+    def _expand_star_locals(fn):
+        """f(*t) with t a local that is only ever bound to None or to tuple displays of one length n: f(t[0], ..., t[n-1])"""
+        lengths = {}
+        for n in _walk_own(fn):
+            if isinstance(n, ast.Name) and isinstance(n.ctx, (ast.Store, ast.Del)):
+                lengths.setdefault(n.id, set())
+        for n in _walk_own(fn):
+            if isinstance(n, ast.Assign) and len(n.targets) == 1 and isinstance(n.targets[0], ast.Name):
+                v = n.value
+                if isinstance(v, ast.Constant) and v.value is None:
+                    lengths[n.targets[0].id].add(None)
+                elif isinstance(v, ast.Tuple) and not any(isinstance(e, ast.Starred) for e in v.elts):
+                    lengths[n.targets[0].id].add(len(v.elts))
+                else:
+                    lengths[n.targets[0].id].add("other")
+                n.targets[0]._counted = True
+        for n in _walk_own(fn):
+            if isinstance(n, ast.Name) and isinstance(n.ctx, (ast.Store, ast.Del)) and not getattr(n, "_counted", False):
+                lengths[n.id].add("other")
+        done = 0
+        for c in _walk_own(fn):
+            if not isinstance(c, ast.Call):
+                continue
+            new_args = []
+            for a in c.args:
+                if isinstance(a, ast.Starred) and isinstance(a.value, ast.Name):
+                    ls = lengths.get(a.value.id, {"other"}) - {None}
+                    if len(ls) == 1 and isinstance(next(iter(ls)), int):
+                        k = next(iter(ls))
+                        new_args.extend(ast.copy_location(ast.Subscript(value=ast.Name(id=a.value.id, ctx=ast.Load()), slice=ast.Constant(value=i), ctx=ast.Load()), a)
+                                        for i in range(k))
+                        done += 1
+                        continue
+                new_args.append(a)
+            c.args = new_args
+        if done:
+            ast.fix_missing_locations(fn)
+        return done
+
     def _inline_in(self, fn, cls):
         self_name = fn.args.args[0].arg if cls is not None and fn.args.args else None
         changed = [False]
+        if self._expand_star_locals(fn):
+            changed[0] = True
         me = (cls, fn.name)
 
         def search_pair(a, b):
@@ -1634,6 +1676,61 @@ def _merge_local_tables(tree):
     that returns its part of the table."""
     n_done = 0
     for fn in [x for x in ast.walk(tree) if isinstance(x, ast.FunctionDef)]:
+        # `a, b = (x, y)` with plain names on both sides (what is left of `a, b = helper(...)`) is `a = x; b = y`, and a name
+        # that is bound once to another once-bound local is that local
+        def split(stmts):
+            out = []
+            for st in stmts:
+                for fld in ("body", "orelse", "finalbody"):
+                    b = getattr(st, fld, None)
+                    if isinstance(b, list) and b and isinstance(b[0], ast.stmt) and not isinstance(st, (ast.FunctionDef, ast.ClassDef)):
+                        setattr(st, fld, split(b))
+                for hnd in getattr(st, "handlers", []) or []:
+                    hnd.body = split(hnd.body)
+                if isinstance(st, ast.Assign) and len(st.targets) == 1 and isinstance(st.targets[0], ast.Tuple) and isinstance(st.value, ast.Tuple) and \
+                        len(st.targets[0].elts) == len(st.value.elts) and all(isinstance(x, ast.Name) for x in st.targets[0].elts + st.value.elts) and \
+                        not ({x.id for x in st.targets[0].elts} & {x.id for x in st.value.elts}) and len({x.id for x in st.targets[0].elts}) == len(st.targets[0].elts):
+                    for t_, v_ in zip(st.targets[0].elts, st.value.elts):
+                        out.append(ast.copy_location(ast.Assign(targets=[t_], value=v_), st))
+                    continue
+                out.append(st)
+            return out
+        fn.body = split(fn.body)
+        stores = {}
+        for x in _walk_own(fn):
+            if isinstance(x, ast.Name) and isinstance(x.ctx, (ast.Store, ast.Del)):
+                stores[x.id] = stores.get(x.id, 0) + 1
+        params = {a.arg for a in fn.args.args + fn.args.kwonlyargs + fn.args.posonlyargs}
+        alias = {}
+        for x in _walk_own(fn):
+            if isinstance(x, ast.Assign) and len(x.targets) == 1 and isinstance(x.targets[0], ast.Name) and isinstance(x.value, ast.Name) and \
+                    stores.get(x.targets[0].id) == 1 and stores.get(x.value.id) == 1 and x.targets[0].id not in params and x.value.id not in params and \
+                    x.value.id.rsplit("_i", 1)[-1].isdigit():
+                alias[x.targets[0].id] = (x.value.id, x)
+        if alias:
+            class _A(ast.NodeTransformer):
+                def visit_Name(self, n):
+                    if isinstance(n.ctx, ast.Load) and n.id in alias:
+                        return ast.copy_location(ast.Name(id=alias[n.id][0], ctx=ast.Load()), n)
+                    return n
+            dead = {id(v[1]) for v in alias.values()}
+            def drop(stmts):
+                out = []
+                for st in stmts:
+                    if id(st) in dead:
+                        continue
+                    for fld in ("body", "orelse", "finalbody"):
+                        b = getattr(st, fld, None)
+                        if isinstance(b, list) and b and isinstance(b[0], ast.stmt) and not isinstance(st, (ast.FunctionDef, ast.ClassDef)):
+                            setattr(st, fld, drop(b) or [ast.copy_location(ast.Pass(), st)])
+                    for hnd in getattr(st, "handlers", []) or []:
+                        hnd.body = drop(hnd.body) or [ast.copy_location(ast.Pass(), st)]
+                    out.append(st)
+                return out
+            fn.body = drop(fn.body)
+            _A().visit(fn)
+            ast.fix_missing_locations(fn)
+
         def blocks(node):
             for fld in ("body", "orelse", "finalbody"):
                 b = getattr(node, fld, None)
